@@ -12,7 +12,7 @@ from sim import world as W
 
 PROPERTY = "C17"
 LEVEL = "fault_enumeration"
-BUDGET = {"quick": 170, "thorough": 3000}
+BUDGET = {"quick": 300, "thorough": 3000}
 ASSUMPTIONS = [
     "only well-nested enter/exit sequences are generated (with-blocks and decorators)",
     "exceptions are injected at funsor-internal Python function entries and between body statements, "
